@@ -360,6 +360,7 @@ def run_property(prop, tier, seed):
         nshards = int(ccfg.get("shards", NCPU))
         params = dict(p.get("params", {}))
         params.update(ccfg.get("params", {}))
+        params["seed"] = seed
         phases = [("rand", ["--cases", str(cases)])] if cases > 0 else []
         if ccfg.get("enum_draws"):
             phases.append(("enum", ["--cases", "0", "--enum", str(ccfg["enum_draws"])]))
